@@ -49,7 +49,11 @@ impl CompressedColumnIndex {
     pub async fn write_to_path_async(&self, path: &Path) -> Result<(), StoreError> {
         use tokio::io::AsyncWriteExt;
 
-        let mut file = tokio::fs::File::create(path)
+        // Readers open a column as soon as its .zfc exists and keep what they loaded in a
+        // process-wide cache: the file must never be visible half-written. Write a sibling
+        // temp file and rename it into place once it is complete and synced.
+        let tmp_path = path.with_extension("zfc.tmp");
+        let mut file = tokio::fs::File::create(&tmp_path)
             .await
             .map_err(|e| StoreError::FlushFailed(format!("Failed to create index file: {}", e)))?;
 
@@ -78,6 +82,10 @@ impl CompressedColumnIndex {
         file.sync_all()
             .await
             .map_err(|e| StoreError::FlushFailed(format!("Failed to sync file: {}", e)))?;
+        drop(file);
+        tokio::fs::rename(&tmp_path, path)
+            .await
+            .map_err(|e| StoreError::FlushFailed(format!("Failed to publish index file: {}", e)))?;
         Ok(())
     }
 
